@@ -120,7 +120,7 @@ func main() {
 		c.Model("From PlzV Require Import Model.C27 Model.C27_states.", "C27_states.case", "C27_states.check")
 		c.Rule("exhaustive pairs of coverage vectors up to a length bound over the 4 line states through core.MergeCoverageLines; " +
 			"random multisets of labelled runs (1-5 runs, 1-3 files from a pool of 4 names, vectors of length 0-6, one third with a repeated test label; each run object's Tests[label] aliases its Files map as the result parsers build it) through TestCoverage.Aggregate in all (<=4 runs) or 24 sampled orders, checking order independence, best state, idempotence, the per-test breakdown and that merged-in objects are not modified. " +
-			"histories on real BuildStates (1-4 runs, 0-3 copies made by ForSubrepo/ForArch of any earlier state, two thirds with all copies made before the first result, runs logged by LogTestResult on any state), replayed in all (<=3 runs) or 6 sampled completion orders: every state must report the best state per line over all runs; " +
+			"histories on real BuildStates (1-4 runs, 0-3 copies made by ForSubrepo/ForArch of any earlier state, two thirds with all copies made before the first result, runs logged by LogTestResult on any state), replayed in all (<=3 runs) or 6-12 sampled completion orders: every state must report the best state per line over all runs; " +
 			"three shapes of many runs finishing at the same moment on a state and its copies (own process; lost lines or a runtime abort fail); " +
 			"flaky targets (flaky 1-4, attempts = shell commands writing different go-cover profiles and failing/passing, one third in a subrepo) through test.Test in process: the reported coverage must be the best over all attempts that ran. " +
 			"distinct = distinct inputs; non-trivial = both vectors non-empty and different (pairs), >=2 runs sharing a file (multisets), >=2 runs with one logged on a copy (histories), >=2 differing attempts run (flaky)")
